@@ -25,6 +25,7 @@ CFGS = {
     "full": dict(salt="S1", anon_pwd=True, anon_ip=True, sensitive_words=WORDS, as_numbers=["65001", "12"], reserved_words=None),
     "resvA": dict(salt="S1", anon_pwd=True, anon_ip=False, sensitive_words=["resv", "zurnet"], as_numbers=None, reserved_words=["resva", "MyResvA"]),
     "other": dict(salt="S2", anon_pwd=True, anon_ip=True, sensitive_words=WORDS, as_numbers=None, reserved_words=["resvb"]),
+    "netsX": dict(salt="S1", anon_pwd=False, anon_ip=True, sensitive_words=None, as_numbers=None, reserved_words=None, preserve_networks=["11.22.0.0/16", "12.0.0.0/8"]),
     "nosalt": dict(salt=None, anon_pwd=True, anon_ip=True, sensitive_words=["zurnet"], as_numbers=["65001"], reserved_words=None),
 }
 INPUTS = {
@@ -154,6 +155,54 @@ def main_runs(ck):
     return ev, info
 
 
+_MAIN_SEQ = r"""
+import sys, json, os, hashlib
+sys.path.insert(0, %r)
+from netconan.netconan import main
+job = json.load(sys.stdin)
+res = []
+for argv in job:
+    try:
+        main(argv)
+        res.append("ok")
+    except BaseException as e:
+        res.append("%%s: %%s" %% (type(e).__name__, e))
+json.dump(res, sys.stdout)
+"""
+
+
+def main_history(ck):
+    """The command-line entry point called several times in ONE process (as a library user or a test-suite does):
+    a run must not depend on the runs before it.  Compared with the same run in a fresh process."""
+    import c_text
+    ev = [{"ev": "start"}]
+    info = [None]
+    base = tlc.subdir("c13mainhist")
+    ind = os.path.join(base, "in")
+    c_text.write_tree(ind, {"a.cfg": INPUTS["mixed"] + "ip address 20.30.40.50 255.255.255.0\nip address 77.1.2.3 255.255.255.0\nneighbor 203.0.113.77 remote-as 65001\n"})
+    target = ["-a", "-p", "-s", "S1", "-w", ",".join(WORDS), "-i", ind]
+    decoys = [["-a", "-s", "S9", "--preserve-addresses", "20.30.0.0/16,77.0.0.0/8,203.0.113.0/24", "-i", ind, "-o", os.path.join(base, "d1")],
+              ["-p", "-w", "resv,zurnet", "-r", "resvb,MyResvA", "-s", "S1", "-i", ind, "-o", os.path.join(base, "d2")],
+              ["-a", "-s", "S1", "--preserve-prefixes", "20.0.0.0/8", "--preserve-host-bits", "0", "-i", ind, "-o", os.path.join(base, "d3")]]
+    runs = [("fresh process", [target + ["-o", os.path.join(base, "t0")]], "t0"),
+            ("after three other runs in the same process", decoys + [target + ["-o", os.path.join(base, "t1")]], "t1"),
+            ("second identical run in the same process", [target + ["-o", os.path.join(base, "t2a")], target + ["-o", os.path.join(base, "t2")]], "t2")]
+    for name, seq, outname in runs:
+        p = subprocess.run([sys.executable, "-c", _MAIN_SEQ % common.REPO], input=json.dumps(seq), stdout=subprocess.PIPE, stderr=subprocess.PIPE, text=True,
+                           env=dict(os.environ, PYTHONHASHSEED="0"))
+        if p.returncode != 0:
+            raise common.MachineryError("main history child failed: " + p.stderr[-800:])
+        res = json.loads(p.stdout)
+        if res[-1] != "ok":
+            ev.append({"ev": "exc", "what": "main %s: %s" % (name, res[-1])})
+            info.append(("exception", name))
+        outd = os.path.join(base, outname)
+        tree = c_text.read_tree(outd) if os.path.isdir(outd) else {}
+        ev.append({"ev": "run", "cfg": "main-seq", "inp": "tree", "out": hashlib.sha256(json.dumps(sorted(tree.items())).encode()).hexdigest(), "where": name})
+        info.append(("run", "main %s: %s" % (name, json.dumps(tree)[-260:])))
+    return ev, info
+
+
 def run(pid, tier):
     ck = Check(pid, tier)
     thorough = tier == "thorough"
@@ -199,6 +248,9 @@ def run(pid, tier):
     ev, info = main_runs(ck)
     traces.append(ev)
     meta.append({"hist": "command line, three hash seeds", "info": info})
+    ev, info = main_history(ck)
+    traces.append(ev)
+    meta.append({"hist": "main() called repeatedly in one process", "info": info})
     validate_traces("ProcessTrace", "ProcessTrace.cfg", traces)
     ck.traces += len(traces)
     ck.events += sum(len(t) for t in traces)
